@@ -26,6 +26,7 @@ const (
 	poolHdr          = 16 // id 8 | payload length 4 | flags 4
 	poolFlagClose    = 1  // server closes the stream right after replying
 	poolFlagCloseLag = 2  // server closes the stream a little later
+	poolFlagTwoFlush = 4  // server flushes header and payload separately and reports when the second flush is done
 )
 
 // ---- server side: echo handler per stream
@@ -36,6 +37,8 @@ type poolServer struct {
 	streams  int64
 	replies  int64
 	closedBy int64
+	closing  int64    // server-side closes announced by a reply but not yet performed
+	flushed2 sync.Map // request id -> true once the second flush of a two-flush reply returned
 	wg       sync.WaitGroup
 	stop     uint32
 }
@@ -49,7 +52,13 @@ func (ps *poolServer) OnShutdown(reason string) {}
 
 func (ps *poolServer) serve(s *Stream) {
 	defer ps.wg.Done()
-	defer s.Close()
+	closing := false
+	defer func() {
+		s.Close()
+		if closing {
+			atomic.AddInt64(&ps.closing, -1)
+		}
+	}()
 	r := s.BufferReader()
 	for {
 		s.SetReadDeadline(time.Now().Add(30 * time.Second))
@@ -73,11 +82,27 @@ func (ps *poolServer) serve(s *Stream) {
 		binary.BigEndian.PutUint64(out[0:8], id)
 		binary.BigEndian.PutUint32(out[8:12], uint32(n))
 		copy(out[poolHdr:], payload)
+		if flags&(poolFlagClose|poolFlagCloseLag) != 0 && !closing {
+			closing = true
+			atomic.AddInt64(&ps.closing, 1)
+		}
+		if flags&poolFlagTwoFlush != 0 && n > 0 {
+			if _, err := s.BufferWriter().WriteBytes(out[:poolHdr]); err != nil {
+				return
+			}
+			if err := s.Flush(false); err != nil {
+				return
+			}
+			out = out[poolHdr:]
+		}
 		if _, err := s.BufferWriter().WriteBytes(out); err != nil {
 			return
 		}
 		if err := s.Flush(false); err != nil {
 			return
+		}
+		if flags&poolFlagTwoFlush != 0 {
+			ps.flushed2.Store(id, true)
 		}
 		atomic.AddInt64(&ps.replies, 1)
 		if flags&poolFlagClose != 0 {
@@ -130,21 +155,22 @@ type poolCase struct {
 }
 
 type poolResult struct {
-	viol         []string
-	inconcl      string
-	roundTrips   int64
-	reused       int64
-	opened       int64
-	putBacks     int64
-	closes       int64
-	errors       int64
-	partReads    int64
-	unflushed    int64
-	fallbacks    uint64
-	kills        int
-	quiescedGets int64
-	accountings  int
-	discards     int64
+	viol            []string
+	inconcl         string
+	roundTrips      int64
+	reused          int64
+	opened          int64
+	putBacks        int64
+	closes          int64
+	errors          int64
+	partReads       int64
+	pendingPutBacks int64
+	unflushed       int64
+	fallbacks       uint64
+	kills           int
+	quiescedGets    int64
+	accountings     int
+	discards        int64
 }
 
 func runPoolCase(c *checkCtx, cs poolCase) (res poolResult) {
@@ -191,16 +217,26 @@ func runPoolCase(c *checkCtx, cs poolCase) (res poolResult) {
 	}
 	var chaosOn uint32
 	var nextID uint64
+	// Known finding F2 (teardown does not wait for users of the session's streams and memory) makes any stream or
+	// buffer operation that overlaps a session teardown process-fatal. That is C14's subject; here session kills are
+	// serialised against stream use: callers and the hoarder hold the read side around their operations, the killer
+	// holds the write side until the lost client session has finished its teardown. GetStream on a pool whose session is
+	// gone, discarding of dead pooled streams and the rebuild are still exercised (between iterations).
+	var world sync.RWMutex
 	var seenStreams sync.Map
 	// one caller iteration; returns false when the caller should stop
 	iteration := func(me int32, rng *rand.Rand, quiesced bool) {
+		world.RLock()
+		defer world.RUnlock()
 		s, err := sm.GetStream()
 		if err != nil {
 			atomic.AddInt64(&res.errors, 1)
 			if quiesced {
 				violate("GetStream failed in a quiesced phase: %v", err)
 			}
+			world.RUnlock()
 			time.Sleep(200 * time.Microsecond)
+			world.RLock()
 			return
 		}
 		if !atomic.CompareAndSwapInt32(ownerOf(s), 0, me) {
@@ -232,7 +268,9 @@ func runPoolCase(c *checkCtx, cs poolCase) (res poolResult) {
 		id := atomic.AddUint64(&nextID, 1)
 		n := []int{0, 1, 40, 300, 5000}[rng.Intn(5)]
 		flags := uint32(0)
-		if atomic.LoadUint32(&chaosOn) == 1 && (cs.Chaos == "server-close" || cs.Chaos == "all") {
+		if atomic.LoadUint32(&chaosOn) == 1 && rng.Intn(4) == 0 {
+			flags = poolFlagTwoFlush
+		} else if atomic.LoadUint32(&chaosOn) == 1 && (cs.Chaos == "server-close" || cs.Chaos == "all") {
 			switch rng.Intn(6) {
 			case 0:
 				flags = poolFlagClose
@@ -314,6 +352,16 @@ func runPoolCase(c *checkCtx, cs poolCase) (res poolResult) {
 			}
 		case mode == 7 || mode == 8: // read only part of the reply and give back (the pool must close it)
 			atomic.AddInt64(&res.partReads, 1)
+			if flags&poolFlagTwoFlush != 0 {
+				// the payload travels in a second message: wait until it has certainly arrived (flush returned + fence), so that
+				// it sits in the stream's pending data (never looked at by this caller) when the stream is given back
+				if !waitUntil(10*time.Second, func() bool { _, ok := ps.flushed2.Load(id); return ok }) || !fence() {
+					fail()
+					return
+				}
+				ps.flushed2.Delete(id)
+				atomic.AddInt64(&res.pendingPutBacks, 1)
+			}
 			if release() {
 				sm.PutBack(s)
 				atomic.AddInt64(&res.putBacks, 1)
@@ -338,8 +386,10 @@ func runPoolCase(c *checkCtx, cs poolCase) (res poolResult) {
 		var wg sync.WaitGroup
 		stopChaos := make(chan struct{})
 		var cwg sync.WaitGroup
-		if !quiesced && cs.Chaos != "none" {
+		if !quiesced {
 			atomic.StoreUint32(&chaosOn, 1)
+		}
+		if !quiesced && cs.Chaos != "none" {
 			if cs.Chaos == "fallback" || cs.Chaos == "all" {
 				cwg.Add(1)
 				go func() { // hoarder: exhausts the client side's share memory now and then
@@ -351,22 +401,24 @@ func runPoolCase(c *checkCtx, cs poolCase) (res poolResult) {
 							return
 						case <-time.After(time.Duration(200+rng.Intn(800)) * time.Microsecond):
 						}
-						sm.RLock()
-						pool := sm.pools[rng.Intn(len(sm.pools))]
-						sm.RUnlock()
-						sess := pool.Session()
-						if sess == nil || sess.IsClosed() {
-							continue
-						}
-						bm := sess.bufferManager
-						var held []*bufferSlice
-						for i := range bm.lists {
-							held = append(held, hoard(bm, i, 1<<20)...)
-						}
-						time.Sleep(time.Duration(100+rng.Intn(400)) * time.Microsecond)
-						if !sess.IsClosed() {
+						func() {
+							world.RLock()
+							defer world.RUnlock()
+							sm.RLock()
+							pool := sm.pools[rng.Intn(len(sm.pools))]
+							sm.RUnlock()
+							sess := pool.Session()
+							if sess == nil || sess.IsClosed() {
+								return
+							}
+							bm := sess.bufferManager
+							var held []*bufferSlice
+							for i := range bm.lists {
+								held = append(held, hoard(bm, i, 1<<20)...)
+							}
+							time.Sleep(time.Duration(100+rng.Intn(400)) * time.Microsecond)
 							unhoard(bm, held)
-						}
+						}()
 					}
 				}()
 			}
@@ -381,10 +433,31 @@ func runPoolCase(c *checkCtx, cs poolCase) (res poolResult) {
 							return
 						case <-time.After(time.Duration(3+rng.Intn(10)) * time.Millisecond):
 						}
-						if ss := ps.sessionList(); len(ss) > 0 {
-							ss[rng.Intn(len(ss))].Close()
+						func() {
+							world.Lock()
+							defer world.Unlock()
+							ss := ps.sessionList()
+							if len(ss) == 0 {
+								return
+							}
+							victim := ss[rng.Intn(len(ss))]
+							name := victim.sessionName()
+							var peer *Session
+							sm.RLock()
+							for _, p := range sm.pools {
+								if cs := p.Session(); cs != nil && cs.sessionName() == name {
+									peer = cs
+								}
+							}
+							sm.RUnlock()
+							victim.Close()
 							res.kills++
-						}
+							waitTeardown(victim, 10*time.Second)
+							if peer != nil {
+								waitUntil(10*time.Second, func() bool { fenceOnce(5 * time.Second); return peer.IsClosed() })
+								waitTeardown(peer, 10*time.Second)
+							}
+						}()
 					}
 				}()
 			}
@@ -407,7 +480,7 @@ func runPoolCase(c *checkCtx, cs poolCase) (res poolResult) {
 	// settle: every session of the manager is alive again, nothing in flight
 	settle := func() bool {
 		return waitUntil(15*time.Second, func() bool {
-			if !fence() {
+			if atomic.LoadInt64(&ps.closing) != 0 || !fence() || atomic.LoadInt64(&ps.closing) != 0 {
 				return false
 			}
 			sm.RLock()
@@ -616,6 +689,7 @@ func checkPool(c *checkCtx) {
 		c.count("put-backs", res.putBacks)
 		c.count("put-backs with part of the reply unread", res.partReads)
 		c.count("put-backs with unflushed bytes", res.unflushed)
+		c.count("put-backs with an arrived but never looked-at message (pending data)", res.pendingPutBacks)
 		c.count("caller-side closes", res.closes)
 		c.count("round trips that failed (chaos)", res.errors)
 		c.count("fallback reads+writes", int64(res.fallbacks))
